@@ -80,7 +80,7 @@ def flat_outcomes(facts, key, summ, depth=0):
                 elif p.endswith("::make_ascii_lowercase") and tgt[0] == "arg" and tgt[1] == 1:
                     for x in alts:
                         x["transform"] = "ascii_lower"
-                elif p.endswith("DerefMut>::deref_mut") or p == "std::ops::DerefMut::deref_mut":
+                elif p.endswith("DerefMut>::deref_mut") or p == "std::ops::DerefMut::deref_mut" or p.endswith("::as_mut_str"):
                     pass
                 elif (p in ("std::iter::Iterator::all", "std::iter::Iterator::any") or p.startswith("<std::str::Bytes<'_> as std::iter::Iterator>::a")) and tgt[0] == "var":
                     pass
